@@ -110,6 +110,13 @@ ForLoops == {<<H("<"), For(Assign("i", IntL(h.i), 1), h.c, h.p, <<H("["), P(Var(
        \cup {<<H("<"), For(Assign("i", IntL(0), 1), Bin("<", Var("i"), IntL(3)), Post("++", Var("i")), b, <<H("[never]")>>, 1), H(">")>> :
                 b \in {<<Continue(1), H("x")>>, <<Break(1)>>, <<ContinueIf(BoolL(TRUE), 1)>>, <<If(<<Br(BoolL(TRUE), <<Break(1)>>)>>, NoElse, 1)>>,
                         <<Assign("q", Var("i"), 1)>>, <<>>}}
+       \* absent clauses: the @else body belongs to "condition false at entry" whatever clauses the header has
+       \cup {<<H("<"), For(Assign("i", IntL(s0), 1), Bin("<", Var("i"), IntL(2)), NoPost, <<H("["), P(Var("i")), H("]"), Assign("i", Bin("+", Var("i"), IntL(1)), 1)>>, els, 1), H(">")>> :
+                s0 \in {0, 1, 5}, els \in {NoElse, <<H("[none]")>>}}
+       \cup {<<Assign("k", IntL(s0), 1), H("<"), For(NoInit, Bin("<", Var("k"), IntL(2)), Assign("k", Bin("+", Var("k"), IntL(1)), 1), <<H("["), P(Var("k")), H("]")>>, els, 1), H(">"), P(Var("k"))>> :
+                s0 \in {0, 1, 5}, els \in {NoElse, <<H("[none]")>>}}
+       \cup {<<Assign("k", IntL(s0), 1), H("<"), For(NoInit, Bin("<", Var("k"), IntL(2)), NoPost, <<Assign("k", Bin("+", Var("k"), IntL(1)), 1), H("["), P(Var("k")), H("]")>> \o j, els, 1), H(">"), P(Var("k"))>> :
+                s0 \in {0, 5}, els \in {NoElse, <<H("[none]")>>}, j \in {<<>>, <<Break(1)>>, <<ContinueIf(BoolL(TRUE), 1), H("never")>>}}
 \* nesting: each loop sees its own loop object, the outer one is restored; jumps act on the innermost loop;
 \* a jump in an inner loop's @else body acts on the loop around it
 InnerEach(j) == Each("w", ArrL(<<IntL(7), IntL(8)>>),
@@ -211,6 +218,12 @@ LoopProgs == {[p |-> <<Assign("loop", IntL(1), 1)>>, d |-> <<>>],
               [p |-> <<Each("v", Var("ar"), <<Assign("t", V, 1)>>, NoElse, 1), P(Var("t"))>>, d |-> CondData],
               [p |-> <<Each("v", ArrL(<<IntL(1), StrL("s")>>), <<P(V)>>, NoElse, 1)>>, d |-> <<>>]}
              \cup {[p |-> p, d |-> LoopData] : p \in UNION {LoopCtx(Assign("loop", e, 1)) : e \in LoopVals}}
+             \* 'loop' as the variable of an @each / @for: refused whatever the elements are (one element, objects, none at all
+             \* is the only case in which nothing is bound)
+             \cup {[p |-> <<H("a"), Each("loop", a, <<H("x")>>, NoElse, 1), H("z")>>, d |-> CondData] :
+                     a \in {ArrL(<<IntL(7)>>), ArrL(<<ObjL(<<>>)>>), ArrL(<<ObjL(<<[key |-> "index", ex |-> IntL(0)]>>), ObjL(<<[key |-> "index", ex |-> IntL(1)]>>)>>), Var("ar"), ArrL(<<StrL("s"), StrL("t")>>)}}
+             \cup {[p |-> <<Each("v", Var("ar"), <<Each("loop", ArrL(<<IntL(7)>>), <<P(V)>>, NoElse, 1)>>, NoElse, 1)>>, d |-> CondData],
+                   [p |-> <<For(Assign("loop", IntL(0), 1), Bin("<", Var("i"), IntL(1)), Post("++", Var("i")), <<H("x")>>, NoElse, 1)>>, d |-> <<[n |-> "i", v |-> I(0)]>>]}
              \* the scope of an @if inside a loop ends with every pass: a name assigned in it is unknown in the next pass,
              \* and may get a value of another type there
              \cup {[p |-> <<Each("v", Var("ar"), <<If(<<Br(BoolL(TRUE), <<P(Tern(LoopF("first"), IntL(0), Var("t"))), Assign("t", V, 1)>>)>>, NoElse, 1)>>, NoElse, 1)>>, d |-> CondData],
